@@ -57,6 +57,11 @@ async fn cross_view(seq: &mut Seq, rep: &mut EpReport, after: &str) {
     let model_subs: BTreeMap<String, String> = seq.m.subs.iter().map(|(n, s)| (n.clone(), if s.topic_deleted { "_deleted_topic_".to_string() } else { s.topic.clone() })).collect();
     if all_subs != model_subs {
         rep.viol("C11", "C11:Q-view:subscriptions-differ-from-model", format!("after {}: ListSubscriptions reports {:?}, model {:?}", after, all_subs, model_subs));
+        // seen from C13: the listing does not enumerate exactly the subscriptions that exist
+        let (listed, existing): (BTreeSet<&String>, BTreeSet<&String>) = (all_subs.keys().collect(), model_subs.keys().collect());
+        if listed != existing {
+            rep.viol("C13", "C13:list-differs-from-model:subscriptions", format!("after {}: ListSubscriptions enumerates {:?}, the subscriptions that exist are {:?}", after, listed, existing));
+        }
     }
     // every subscription of the model can be read back, with the topic it reports in the listing
     for (name, want_topic) in &model_subs {
